@@ -26,6 +26,38 @@ def rename_types(schema, mapping):
     return s
 
 
+TYPE_RENAMES = {"Robot": "HTTPRobot", "Cat": "tabby_cat"}
+
+
+def rename_program(p, mapping=TYPE_RENAMES, op_name=None):
+    """pure renaming of a program and its vectors: non-UpperCamelCase type (and operation) names"""
+    def ren(x):
+        return mapping.get(x, x)
+
+    def walk(v):
+        if v["t"] == "obj":
+            for kv in v["o"]:
+                if kv["k"] == "__typename" and kv["v"]["t"] in ("str", "opt"):
+                    kv["v"]["s"] = ren(kv["v"]["s"])
+                else:
+                    walk(kv["v"])
+        elif v["t"] == "list":
+            for x in v["l"]:
+                walk(x)
+    for d in p["doc"]["defs"]:
+        d["on"] = ren(d["on"])
+        if d["k"] == "op" and op_name:
+            d["name"] = op_name
+    for n in p["doc"]["nodes"]:
+        n["on"] = ren(n["on"])
+    for v in p["vectors"]:
+        walk(v["payload"])
+        walk(v["expect"])
+        if v["alt"]["a"] in ("type", "c_tn_swap"):
+            v["alt"]["x"] = ren(v["alt"]["x"])
+    return p
+
+
 # Which members the SDL rendering with unfolded extensions moves into `extend type` blocks.
 EXT_PLAN = {"Robot": {"fields": ["owner", "serial"], "ifaces": ["Node"]},                     # extension after the type
             "Person": {"fields": ["lonely", "older", "colors"], "ifaces": ["Named"], "first": True},  # ... before it
